@@ -238,3 +238,189 @@ pub fn boundaries_before_dd(line: &Line) -> Vec<usize> {
         .unwrap_or(line.argv.len());
     (0..=first_dd).collect()
 }
+
+// ------------------------------------------------------------------------------------------
+// a built definition plus the bookkeeping every run needs
+
+use super::Case;
+use crate::outcome::{run_full, Hooks, Outcome, RunOpts};
+
+pub struct Bench {
+    pub spec: OptSpec,
+    pub parser: bpaf::OptionParser<V>,
+    pub alpha: Alphabet,
+    pub h: u64,
+}
+
+impl Bench {
+    pub fn new(case: &mut Case, spec: OptSpec) -> Bench {
+        let h = spec.hash64();
+        case.rep.definition(h);
+        case.say(&format!("definition: {}", spec.pretty()));
+        let parser = crate::build::build_options(&spec);
+        let alpha = alphabet(&spec);
+        Bench {
+            spec,
+            parser,
+            alpha,
+            h,
+        }
+    }
+
+    /// Run the real parser, account for the execution and apply the hook oracles that hold for
+    /// every property: no ledger mismatch, and a value only with every item consumed
+    pub fn run(&self, case: &mut Case, argv: &[Vec<u8>], class: &str) -> (Outcome, Hooks) {
+        self.run_opts(case, argv, class, &RunOpts::default(), 0)
+    }
+
+    pub fn run_opts(
+        &self,
+        case: &mut Case,
+        argv: &[Vec<u8>],
+        class: &str,
+        opts: &RunOpts,
+        mode: u64,
+    ) -> (Outcome, Hooks) {
+        let mut o = opts.clone();
+        o.fuel = fuel_for(&self.spec, argv);
+        let (out, _, hk) = run_full(&self.parser, argv, &o);
+        case.rep.exec(self.h, argv, mode, !argv.is_empty());
+        case.rep.count(&format!("class:{}", class));
+        case.rep.count(&format!("outcome:{}", out.class()));
+        case.rep.max("fuel_ticks_max", hk.ticks);
+        case.rep.add("ledger_checks", hk.ledger_checks);
+        case.rep.add("accept_events", hk.accepts.len() as u64);
+        for m in &hk.ledger_mismatch {
+            case.rep.violation(
+                "ledger-mismatch",
+                "ledger-hook",
+                case.index,
+                case_json(&self.spec, argv).set("event", m.as_str()),
+            );
+        }
+        if hk.enabled && out.is_value() {
+            match hk.accepts.last() {
+                Some((_, _, ledger)) => {
+                    case.rep.count("accept_ledgers_checked");
+                    if ledger.iter().any(|s| *s != 2) {
+                        case.rep.violation(
+                            "value-with-unconsumed-item",
+                            "accept-hook",
+                            case.index,
+                            case_json(&self.spec, argv)
+                                .set("ledger", format!("{:?}", ledger))
+                                .set("observed", out.show()),
+                        );
+                    }
+                }
+                None => {
+                    case.rep.violation(
+                        "value-without-accept-event",
+                        "accept-hook",
+                        case.index,
+                        case_json(&self.spec, argv).set("observed", out.show()),
+                    );
+                }
+            }
+        }
+        if matches!(out, Outcome::Panic(_) | Outcome::FuelExhausted) {
+            let site = match &out {
+                Outcome::Panic(m) => m.rsplit(" @ ").next().unwrap_or("?").to_string(),
+                _ => "fuel".to_string(),
+            };
+            case.rep.violation(
+                &format!("abnormal:{}", site),
+                "total",
+                case.index,
+                case_json(&self.spec, argv)
+                    .set("class", class)
+                    .set("observed", out.show()),
+            );
+        }
+        (out, hk)
+    }
+
+    pub fn detail(&self, argv: &[Vec<u8>], class: &str, expected: &str, out: &Outcome) -> J {
+        case_json(&self.spec, argv)
+            .set("class", class)
+            .set("expected", expected)
+            .set("observed", out.show())
+    }
+
+    /// the vector must yield exactly this value
+    pub fn expect_value(
+        &self,
+        case: &mut Case,
+        argv: &[Vec<u8>],
+        expected: &V,
+        class: &str,
+        sig_prefix: &str,
+    ) -> bool {
+        let (out, _) = self.run(case, argv, class);
+        match &out {
+            Outcome::Value(v) if v == expected => true,
+            Outcome::Panic(_) | Outcome::FuelExhausted => false,
+            Outcome::Value(_) => {
+                case.rep.violation(
+                    &format!("{}:value-differs", sig_prefix),
+                    class,
+                    case.index,
+                    self.detail(argv, class, &format!("Ok({})", expected.show()), &out),
+                );
+                false
+            }
+            other => {
+                case.rep.violation(
+                    &format!("{}:rejected-as-{}", sig_prefix, other.class()),
+                    class,
+                    case.index,
+                    self.detail(argv, class, &format!("Ok({})", expected.show()), &out),
+                );
+                false
+            }
+        }
+    }
+
+    /// the vector must be reported as a failure on stderr
+    pub fn expect_stderr(
+        &self,
+        case: &mut Case,
+        argv: &[Vec<u8>],
+        class: &str,
+        sig: &str,
+        why: &str,
+    ) -> Option<String> {
+        let (out, _) = self.run(case, argv, class);
+        match &out {
+            Outcome::Stderr { text } => Some(text.clone()),
+            Outcome::Panic(_) | Outcome::FuelExhausted => None,
+            other => {
+                case.rep.violation(
+                    &format!("{}:{}", sig, other.class()),
+                    class,
+                    case.index,
+                    self.detail(argv, class, &format!("Stderr ({})", why), &out),
+                );
+                None
+            }
+        }
+    }
+}
+
+/// replace a unique byte token inside a value
+pub fn subst_bytes(v: &mut V, old: &[u8], new: &[u8]) {
+    match v {
+        V::Bytes(b) => {
+            if b == old {
+                *b = new.to_vec();
+            }
+        }
+        V::Opt(Some(x)) | V::Variant(_, x) | V::Field(_, x) => subst_bytes(x, old, new),
+        V::List(xs) | V::Tuple(xs) => {
+            for x in xs {
+                subst_bytes(x, old, new);
+            }
+        }
+        _ => {}
+    }
+}
